@@ -256,7 +256,7 @@ Qed.
 
 Lemma step_ok : forall m e m' o, inv m -> step true m e = (m', o) -> inv m' /\ obs_documented o.
 Proof.
-  intros m e m' o I H. destruct e as [c|i| |]; cbn [step] in H.
+  intros m e m' o I H. destruct e as [c|i| | |i]; cbn [step] in H.
   - inv H. split; [exact I | apply obs_documented_nil].
   - destruct (take i (m_created m)) as [[p rest]|]; [|inv H; split; [exact I | apply obs_documented_nil]].
     destruct (m_holder m) as [h|] eqn:Hh.
@@ -272,6 +272,16 @@ Proof.
   - destruct (m_holder m) as [h|] eqn:Hh; [inv H; split; [exact I | apply obs_documented_nil]|].
     destruct (m_waiters m) as [|p ws]; [inv H; split; [exact I | apply obs_documented_nil]|].
     eapply acquire_ok. exact H.
+  - assert (D : forall j, obs_documented [OCancelled j]) by (intros j a b [E|[]]; discriminate).
+    destruct (m_holder m) as [h|] eqn:Hh.
+    + destruct (Nat.eqb (h_id h) i).
+      * inv H. split; [exact Logic.I | apply D].
+      * destruct (take i (m_waiters m)) as [[q ws]|]; inv H.
+        -- split; [unfold inv in *; cbn; rewrite Hh in I; exact I | apply D].
+        -- split; [exact I | apply obs_documented_nil].
+    + destruct (take i (m_waiters m)) as [[q ws]|]; inv H.
+      * split; [exact Logic.I | apply D].
+      * split; [exact I | apply obs_documented_nil].
 Qed.
 
 Lemma run_ok : forall es m, inv m -> obs_documented (snd (run true m es)).
@@ -308,7 +318,7 @@ Qed.
 Lemma concurrent_refusal_thm : forall b m e m' o i, step b m e = (m', o) -> In (ORet i false) o ->
   m_t m' = m_t m /\ o = [ORet i false].
 Proof.
-  intros b m e m' o i H Hin. destruct e as [c|j| |]; cbn [step] in H.
+  intros b m e m' o i H Hin. destruct e as [c|j| | |j0]; cbn [step] in H.
   - inv H. destruct Hin.
   - destruct (take j (m_created m)) as [[p rest]|]; [|inv H; destruct Hin].
     destruct (m_holder m); [inv H; destruct Hin|]. destruct (m_waiters m); [|inv H; destruct Hin].
@@ -319,6 +329,10 @@ Proof.
     + apply in_app_or in Hin. destruct Hin as [Hin|[E|[]]]; [eapply in_obs_edges_ret; eassumption|discriminate].
   - destruct (m_holder m); [inv H; destruct Hin|]. destruct (m_waiters m) as [|p ws]; [inv H; destruct Hin|].
     destruct (acquire_refusal _ _ _ _ _ _ _ H Hin) as [A [B _]]. auto.
+  - exfalso. destruct (m_holder m) as [h|].
+    + destruct (Nat.eqb (h_id h) j0); [inv H; destruct Hin as [E|[]]; discriminate|].
+      destruct (take j0 (m_waiters m)) as [[q ws]|]; inv H; [destruct Hin as [E|[]]; discriminate|destruct Hin].
+    + destruct (take j0 (m_waiters m)) as [[q ws]|]; inv H; [destruct Hin as [E|[]]; discriminate|destruct Hin].
 Qed.
 
 (* ---------- F01: the dispatch discipline of the current wrapper ---------- *)
